@@ -5,7 +5,7 @@ import ctypes
 import json
 
 from . import node_abi
-from ctypes import (CFUNCTYPE, POINTER, c_char_p, c_double, c_int, c_long, c_void_p, create_string_buffer)
+from ctypes import (CFUNCTYPE, POINTER, c_char_p, c_double, c_int, c_long, c_void_p, create_string_buffer, string_at)
 
 
 class NodeError(Exception):
@@ -89,10 +89,12 @@ class Node(node_abi.Mixin):
                 self.raise_last()
             # a side-effect free query is assumed; the value may legitimately differ in length only if not
             n = n2
-        return self._buf.raw[:n]
+        return string_at(self._buf, int(n))     # copies n bytes only (.raw would copy the whole buffer every time)
 
     def reset(self):
         self.lib.aws_reset()
+        if len(self._buf) > (1 << 20):     # one huge dump must not tax every later call
+            self._buf = create_string_buffer(1 << 16)
 
     def drop(self, h):
         if not self.lib.aws_drop(h):
